@@ -134,6 +134,7 @@ def run_scenario(scn, ch):
     env.validate_runs = 0
     env.acq_snapshot = None
     env.manual_obtained = None
+    env.ended_before_acq = False
     env.clock = clock = vclock.VClock()
     vclock.use(clock)
     mode = scn["mode"]
@@ -194,6 +195,8 @@ def run_scenario(scn, ch):
                 raise Injected(f"checkpoint {phase}")
             else:
                 if c >= 3:
+                    if env.acq_snapshot is None:
+                        env.ended_before_acq = True  # ended before the first acquisition
                     external(c - 3, f"cp:{phase}")
                 r = orig(ctx)
             if phase == "G0" and env.acq_snapshot is None:
@@ -273,8 +276,8 @@ def run_scenario(scn, ch):
     # ---- exit path name (for keys) and final judgement
     if env.ext:
         exit_path = env.ext[-1]
-    elif env.faults and env.faults[-1] != "nested-preemptor":
-        exit_path = env.faults[-1].split(":")[0]
+    elif [f for f in env.faults if f != "nested-preemptor" and not f.startswith("retry:")]:
+        exit_path = [f for f in env.faults if f != "nested-preemptor" and not f.startswith("retry:")][-1].split(":")[0]
     else:
         snap = env.acq_snapshot or env.pre_state
         _own, blocked_at = predict_obtained(req, prio, snap, pre)
@@ -291,6 +294,11 @@ def run_scenario(scn, ch):
     for r in RES:
         if "shutdown" in env.ext:
             expected[r] = (None, 0, 0)  # every operation was ended
+        elif r in obtained and env.ended_before_acq and final[r] == env.pre_state[r]:
+            # ended before its first acquisition: the statement allows the driver to stop there
+            # (nothing obtained) as well as to carry on and release at the end
+            expected[r] = env.pre_state[r]
+            obtained = obtained - {r}
         elif r in obtained:
             expected[r] = (None, 0, 0)
         else:
